@@ -113,6 +113,8 @@ func (t *ftr) declare(name string, ty types.Type, n ast.Node) {
 	if sl, ok := ty.Underlying().(*types.Slice); ok && v.kind == "" {
 		if it, ok := intType(sl.Elem()); ok { // []uint64, []int32, …: a list of fixed-width integers
 			v.kind, v.w, v.lean, v.zero = "ints", it.w, fmt.Sprintf("List (BitVec %d)", it.w), "[]"
+		} else if b, ok := sl.Elem().Underlying().(*types.Basic); ok && b.Kind() == types.Bool {
+			v.kind, v.lean, v.zero = "bools", "List Bool", "[]"
 		}
 	}
 	if v.kind == "" {
@@ -332,6 +334,22 @@ func (t *ftr) valueAs(e ast.Expr, v svar) string {
 		return t.errExpr(e)
 	case "bool":
 		return t.cond(e)
+	case "bools":
+		if id, ok := e.(*ast.Ident); ok && id.Name == "nil" {
+			return "([] : List Bool)"
+		}
+		if sn := t.x.stateName(e); sn != "" && t.byName[sn].kind == "bools" {
+			return "s." + sn
+		}
+		if ce, ok := e.(*ast.CallExpr); ok && len(ce.Args) == 2 {
+			if f, ok := ce.Fun.(*ast.Ident); ok && f.Name == "append" {
+				if sn := t.x.stateName(ce.Args[0]); sn != "" && t.byName[sn].kind == "bools" {
+					t.pendingGuards = append(t.pendingGuards, t.guards(ce.Args[1])...)
+					return fmt.Sprintf("(s.%s ++ [%s])", sn, t.cond(ce.Args[1]))
+				}
+			}
+		}
+		return t.fail(e, "unsupported []bool expression")
 	case "ints":
 		if id, ok := e.(*ast.Ident); ok && id.Name == "nil" {
 			return fmt.Sprintf("([] : List (BitVec %d))", v.w)
@@ -609,7 +627,7 @@ func (t *ftr) stmt(s ast.Stmt) string {
 		var gs, vals []string
 		t.pendingGuards = nil
 		for i, r := range s.Results {
-			if t.res[i].kind != "bytes" && t.res[i].kind != "ints" {
+			if t.res[i].kind != "bytes" && t.res[i].kind != "ints" && t.res[i].kind != "bools" {
 				gs = append(gs, t.guards(r)...)
 			}
 			vals = append(vals, t.valueAs(r, t.res[i]))
@@ -787,6 +805,8 @@ func translateFunc(p *pkgInfo, name string, b *strings.Builder) []string {
 				} else if sl, ok := ty.Underlying().(*types.Slice); ok {
 					if it, ok := intType(sl.Elem()); ok {
 						v.kind, v.w, v.lean = "ints", it.w, fmt.Sprintf("List (BitVec %d)", it.w)
+					} else if b, ok := sl.Elem().Underlying().(*types.Basic); ok && b.Kind() == types.Bool {
+						v.kind, v.lean = "bools", "List Bool"
 					} else {
 						t.fail(f.Type, "unsupported result type")
 					}
@@ -908,7 +928,7 @@ func writeWireFuncs(p *pkgInfo, outPath string) {
 		"EncodeTag", "EncodeZigZag32", "EncodeZigZag64", "DecodeZigZag32", "DecodeZigZag64",
 		"Decoder.Offset", "Decoder.Reset", "Decoder.DecodeTag", "Decoder.DecodeUInt64", "Decoder.DecodeInt64", "Decoder.DecodeUInt32",
 		"Decoder.DecodeInt32", "Decoder.DecodeSInt32", "Decoder.DecodeSInt64", "Decoder.DecodeFixed32", "Decoder.DecodeFixed64",
-		"Decoder.DecodeBytes", "Decoder.Skip", "Decoder.DecodeBool", "Decoder.More", "Decoder.Seek", "Decoder.DecodePackedUint64", "Decoder.DecodePackedInt64", "Decoder.DecodePackedSint64", "Decoder.DecodePackedSint32", "Decoder.DecodePackedUint32", "Decoder.DecodePackedInt32", "Decoder.DecodePackedFixed64", "Decoder.DecodePackedFixed32", "Encoder.EncodeBool",
+		"Decoder.DecodeBytes", "Decoder.Skip", "Decoder.DecodeBool", "Decoder.More", "Decoder.Seek", "Decoder.DecodePackedUint64", "Decoder.DecodePackedInt64", "Decoder.DecodePackedSint64", "Decoder.DecodePackedSint32", "Decoder.DecodePackedUint32", "Decoder.DecodePackedInt32", "Decoder.DecodePackedFixed64", "Decoder.DecodePackedFixed32", "Decoder.DecodePackedBool", "Encoder.EncodeBool",
 		"Encoder.EncodeUInt64", "Encoder.EncodeUInt32", "Encoder.EncodeInt64", "Encoder.EncodeInt32", "Encoder.EncodeSInt32", "Encoder.EncodeSInt64"} {
 		if errs := translateFunc(p, fn, &b); len(errs) > 0 {
 			fmt.Println("wire primitive", fn, "is outside the translatable fragment (Bridge/WireFuncs.lean no longer applies):")
